@@ -86,7 +86,7 @@ def bound_exceeds_long(text):
 
 
 def choice_refs(text):
-    """names of the type assignments that are a plain (untagged, unconstrained) reference to a CHOICE type, directly or through such references"""
+    """names of the type assignments that are an unconstrained (possibly tagged) reference to a CHOICE type, directly or through such references"""
     defs = dict(parse_defs(text))
     out = set()
     for n in defs:
@@ -98,9 +98,10 @@ def choice_refs(text):
                 if x != n:
                     out.add(n)
                 break
-            if not re.match(r"[A-Z][\w-]*$", rhs):
+            m = re.match(r"(?:\[[^\]]*\]\s*(?:IMPLICIT\s+|EXPLICIT\s+)?)?([A-Z][\w-]*)$", rhs)
+            if not m:
                 break
-            x = rhs
+            x = m.group(1)
     return out
 
 
@@ -276,6 +277,8 @@ def main(tier):
                    {"build_log": j.get("build_log", "")[-1500:]})
         else:
             run.count("warnings", j.get("warnings", 0))
+            if j.get("allobj_undefined"):
+                run.count("observation:linking-every-emitted-object-directly-fails(not-a-violation)")
         if j.get("cxx_rc") != 0:
             run.count("c++-failed")
             if built or match_finding("cxx", j) != match_finding("build", j) or not match_finding("cxx", j):
